@@ -3,10 +3,11 @@
 From Coq Require Import NArith List Bool.
 From V Require Import Base.U64 Beacon.Config Beacon.State Beacon.Spec.Helpers Beacon.Spec.Epoch.
 From V Require Import Beacon.Impl.Flat Beacon.Impl.Registry Beacon.Impl.Justification Beacon.Impl.Final Beacon.Impl.Slashings
-                      Beacon.Impl.AltairAttester.
+                      Beacon.Impl.AltairAttester Beacon.Impl.Phase0Attester.
 From V Require Import Beacon.Refine.RegistryRefine Beacon.Refine.RegistryWitness Beacon.Refine.JustificationRefine
                       Beacon.Refine.FinalRefine Beacon.Refine.SlashingsRefine Beacon.Refine.AltairDomain
-                      Beacon.Refine.AltairRefine Beacon.Refine.AltairCheck Beacon.Refine.AltairWitness.
+                      Beacon.Refine.AltairRefine Beacon.Refine.AltairCheck Beacon.Refine.AltairWitness
+                      Beacon.Refine.EpochCompose Beacon.Refine.Phase0Refine Beacon.Refine.Phase0Check Beacon.Refine.Phase0Witness.
 
 (* ---- 1. registry updates (phase0..capella: churn limit; deneb: activation churn limit) ---- *)
 Definition C02_exit_scan_spec := exit_scan_spec.                 (* scan = (max exit epoch ∪ {activation-exit epoch}, #exits there) *)
@@ -39,6 +40,15 @@ Definition C02_altair_rewards_refines_checked := altair_rewards_refines_checked.
 Definition C02_altair_curr_target_orig_refuted := altair_curr_target_orig_refuted. (* pinned snapshot *)
 Definition C02_altair_delta_order_refuted := altair_delta_order_refuted.  (* FINDING: sum-then-apply *)
 Definition C02_altair_nonvacuous := altair_nonvacuous.
+(* ---- 6. phase0: attester statuses, stakes, attestation deltas ---- *)
+Definition C02_phase0_attester_data_refines := phase0_attester_data_refines. (* P0Hyps: statuses in closed form, the four stakes *)
+Definition C02_phase0_stakes_spec := phase0_stakes_spec.           (* the stakes are the spec's attesting balances *)
+Definition C02_phase0_rewards_refines := phase0_rewards_refines.   (* P0Hyps, P0Bounds, finalized <= previous epoch *)
+Definition C02_phase0_rewards_refines_checked := phase0_rewards_refines_checked.
+Definition C02_phase0_nonvacuous := phase0_nonvacuous.
+(* ---- composition: the stale snapshot after registry updates ---- *)
+Definition C02_registry_frame := registry_frame.
+Definition C02_registry_keeps_active := registry_keeps_active.
 
 Print Assumptions C02_registry_refines.
 Print Assumptions C02_justification_refines.
@@ -47,3 +57,5 @@ Print Assumptions C02_historical_refines.
 Print Assumptions C02_slashings_refines.
 Print Assumptions C02_altair_rewards_refines.
 Print Assumptions C02_inactivity_updates_refines.
+Print Assumptions C02_phase0_rewards_refines.
+Print Assumptions C02_registry_frame.
